@@ -150,6 +150,7 @@ func allScenarios(tier string) []*Scenario {
 	addSplitLayer(ss, thorough)
 	addSeqLayer(ss, thorough)
 	addMergeSplitGrid(ss, thorough)
+	addFeatureGrid(ss, thorough)
 	// a caller cancelled while it waits for room in the shard's input channel (stalled export, max_concurrency 1)
 	ss.add(Scenario{Name: "D7-cancel-backpressure", QB: 1, TB: 2, Signal: "traces", S: 1, Timeout: T, K: 1, NumCPU: 1, Early: true,
 		Callers: []CallerSpec{{Label: "B", Reqs: []Shape{simple("traces", "B", 1)}}, {Label: "C", Reqs: []Shape{simple("traces", "C", 1)}},
